@@ -932,7 +932,7 @@ pub proof fn axiom_prim_sizes()
 //@  impl_arg
 //@end
 
-//@item @expanded props=C04,C06 name=tuple2::AlignHash <<impl<T: AlignHash> AlignHash for (T, T) {>>
+//@item @expanded props=C04,C06 name=tuple2::AlignHash optional <<impl<T: @@> AlignHash for (T, T) {>>
 //@  body_prefix
 //@|    open spec fn ah(off: nat) -> Seq<HItem> { T::ah(off) + T::ah(T::ah_off(off)) }
 //@|    open spec fn ah_off(off: nat) -> nat { T::ah_off(T::ah_off(off)) }
@@ -941,7 +941,7 @@ pub proof fn axiom_prim_sizes()
 //@  impl_arg
 //@end
 
-//@item @expanded props=C04,C06 name=tuple1::AlignHash <<impl<T: AlignHash> AlignHash for (T,) {>>
+//@item @expanded props=C04,C06 name=tuple1::AlignHash optional <<impl<T: @@> AlignHash for (T,) {>>
 //@  body_prefix
 //@|    open spec fn ah(off: nat) -> Seq<HItem> { T::ah(off) }
 //@|    open spec fn ah_off(off: nat) -> nat { T::ah_off(off) }
@@ -976,7 +976,7 @@ pub proof fn axiom_prim_sizes()
 //@  impl_arg
 //@end
 
-//@item @expanded props=C04,C06 name=tuple3::AlignHash <<impl<T: AlignHash> AlignHash for (T, T, T) {>>
+//@item @expanded props=C04,C06 name=tuple3::AlignHash optional <<impl<T: @@> AlignHash for (T, T, T) {>>
 //@  body_prefix
 //@|    open spec fn ah(off: nat) -> Seq<HItem> { T::ah(off) + T::ah(T::ah_off(off)) + T::ah(T::ah_off(T::ah_off(off))) }
 //@|    open spec fn ah_off(off: nat) -> nat { T::ah_off(T::ah_off(T::ah_off(off))) }
@@ -985,7 +985,7 @@ pub proof fn axiom_prim_sizes()
 //@  impl_arg
 //@end
 
-//@item @expanded props=C04,C06 name=tuple4::AlignHash <<impl<T: AlignHash> AlignHash for (T, T, T, T) {>>
+//@item @expanded props=C04,C06 name=tuple4::AlignHash optional <<impl<T: @@> AlignHash for (T, T, T, T) {>>
 //@  body_prefix
 //@|    open spec fn ah(off: nat) -> Seq<HItem> { T::ah(off) + T::ah(T::ah_off(off)) + T::ah(T::ah_off(T::ah_off(off))) + T::ah(T::ah_off(T::ah_off(T::ah_off(off)))) }
 //@|    open spec fn ah_off(off: nat) -> nat { T::ah_off(T::ah_off(T::ah_off(T::ah_off(off)))) }
@@ -994,7 +994,7 @@ pub proof fn axiom_prim_sizes()
 //@  impl_arg
 //@end
 
-//@item @expanded props=C04,C06 name=tuple6::AlignHash <<impl<T: AlignHash> AlignHash for (T, T, T, T, T, T) {>>
+//@item @expanded props=C04,C06 name=tuple6::AlignHash optional <<impl<T: @@> AlignHash for (T, T, T, T, T, T) {>>
 //@  body_prefix
 //@|    open spec fn ah(off: nat) -> Seq<HItem> { T::ah(off) + T::ah(T::ah_off(off)) + T::ah(T::ah_off(T::ah_off(off))) + T::ah(T::ah_off(T::ah_off(T::ah_off(off)))) + T::ah(T::ah_off(T::ah_off(T::ah_off(T::ah_off(off))))) + T::ah(T::ah_off(T::ah_off(T::ah_off(T::ah_off(T::ah_off(off)))))) }
 //@|    open spec fn ah_off(off: nat) -> nat { T::ah_off(T::ah_off(T::ah_off(T::ah_off(T::ah_off(T::ah_off(off)))))) }
